@@ -27,6 +27,7 @@ pub struct Facts {
     pub cw20_balances: Vec<(String, Uint128)>,             // token address -> balance of the hub (airdrop)
     pub hub: String,
     pub failing: Vec<String>,                              // contract addresses whose smart queries fail
+    pub smart: Vec<(String, String, Value)>,               // (contract, top-level key of the query, response)
 }
 
 impl Querier for Facts {
@@ -97,6 +98,11 @@ impl Querier for Facts {
                     return SystemResult::Err(SystemError::NoSuchContract { addr: contract_addr });
                 }
                 let v: Value = serde_json::from_slice(msg.as_slice()).unwrap_or(Value::Null);
+                for (c, key, resp) in self.smart.iter() {
+                    if *c == contract_addr && (v.get(key).is_some() || v.as_str() == Some(key.as_str())) {
+                        return SystemResult::Ok(ContractResult::Ok(Binary::from(serde_json::to_vec(resp).unwrap())));
+                    }
+                }
                 if v.get("token_info").is_some() {
                     if let Some(s) = self.supplies.iter().find(|s| s.0 == contract_addr) {
                         let r = json!({"name":"tok","symbol":"TOK","decimals":6,"total_supply": s.1.to_string()});
@@ -164,6 +170,7 @@ pub fn facts_from(q: &Value, hub: &str) -> Facts {
         supplies: arr("supplies").iter().map(|d| (s(&d["token"]), u(&d["supply"]))).collect(),
         cw20_balances: arr("cw20_balances").iter().map(|d| (s(&d["token"]), u(&d["balance"]))).collect(),
         failing: arr("failing").iter().map(s).collect(),
+        smart: arr("smart").iter().map(|d| (s(&d["contract"]), s(&d["key"]), d["response"].clone())).collect(),
     }
 }
 
